@@ -27,5 +27,18 @@ def seeds():
         out.append("| %s | %s | %s | %s | %s | %s |" % (name, m.get("what", "")[:110], m.get("needs", "")[:90], m.get("tests", ""), m.get("caught_by", ""), m.get("how", "")[:80]))
     return "\n".join(out)
 
+def benign():
+    rows = []
+    for d in sorted(glob.glob(os.path.join(ROOT, "seeded", "benign-*")), key=lambda x: int(x.rsplit("-", 1)[1])):
+        r = os.path.join(d, "result.json")
+        if not os.path.exists(r):
+            continue
+        m = json.load(open(r))
+        n = len(m.get("checks", {}))
+        fa = m.get("false_alarms", [])
+        rows.append(f"{os.path.basename(d)}: {n - len(fa)}/{n} checks silent" + (f" (ALARM: {', '.join(fa)})" if fa else ""))
+    return "; ".join(rows) if rows else "not run yet"
+
+
 if __name__ == "__main__":
     print(findings() if sys.argv[1:] == ["findings"] else seeds())
